@@ -363,12 +363,22 @@ class TransformedPrior(Prior):
         msg = "Cannot calculate probability. Use base priors."
         raise NotImplementedError(msg)
 
-    def sample(self, size=None):
+    def sample(self, size=None, _memo=None):
         if size is None:
             repeat = lambda x: x
         else:
             repeat = lambda x: np.repeat(x, size)
-        raw_samples = [bp.sample(size) if isinstance(bp, Prior) else repeat(bp)
+        # one draw per prior object, however often it occurs in the expression
+        memo = {} if _memo is None else _memo
+
+        def draw(bp):
+            if id(bp) not in memo:
+                if isinstance(bp, TransformedPrior):
+                    memo[id(bp)] = bp.sample(size, memo)
+                else:
+                    memo[id(bp)] = bp.sample(size)
+            return memo[id(bp)]
+        raw_samples = [draw(bp) if isinstance(bp, Prior) else repeat(bp)
                        for bp in self.base_prior]
         if size is None:
             return self.transformation(*raw_samples)
